@@ -23,7 +23,9 @@ pub trait BuildSchema {
 	/// Build a [`SchemaMut`] for this type
 	fn schema_mut() -> SchemaMut {
 		let mut builder = SchemaBuilder::default();
-		Self::append_schema(&mut builder);
+		// Going through `find_or_build` registers the root type as well, so that a
+		// recursive type refers to its own node instead of defining itself twice
+		builder.find_or_build::<Self>();
 		SchemaMut::from_nodes(builder.nodes)
 	}
 
